@@ -149,8 +149,11 @@ static void check_case(int type, int op, int off, int typed, uint64_t oldv, uint
 	}
 }
 // exhaustive enumeration of the boundary grid: every type x operation x aligned position x operand passing style {operand type, (unsigned) long, unsigned int, int} x old-value-written-by-plain-assignment {no, yes} x (old, a, b) in the 14-value boundary pool
+#include <fcntl.h>
 static void grid()
 {
+	// one fuzzer process of the campaign enumerates the grid (the first to create the lock file); a stand-alone replay always does
+	if (const char *dir = getenv("VERIF_FUZZ_STATS")) { char lk[512]; snprintf(lk, sizeof lk, "%s/grid.lock", dir); int fd = open(lk, O_CREAT | O_EXCL | O_WRONLY, 0644); if (fd < 0) return; close(fd); }
 	unsigned char guard[24]; for (int i = 0; i < 24; i++) guard[i] = 0xa5 ^ (i * 17);
 	grid_cases = 1;
 	for (int type = 0; type < UT_N; type++) for (int op = 0; op < UOP_N; op++) for (int off = 0; off < 8; off += widths[type]) for (int typed = 0; typed < 4; typed++) for (int pre = 0; pre < 2; pre++)
